@@ -55,3 +55,7 @@ def run(ctx):
     hists, execs, traces = sm.run_property(ctx, "C17", ["batch_last_stored_empty"], extras(ctx))
     ctx.rule = ("transition cover of the TLC-explored session design (%d histories) replayed on the real session, plus seeded "
                 "single/batch send mixes (batch sizes 2-6) on memory and file persisters" % len(hists))
+
+
+def replay(ctx, doc):
+    sc.replay_case(ctx, doc)
